@@ -1,42 +1,19 @@
-"""C10 — see harness/props/sdl_ko.py (check_c10) for the oracle on the real StatefulDataLoader under the virtual
-scheduler; the Lean theorems and the trace-validation leg are listed in THEOREMS / run()."""
+"""C10 - oracle: harness/props/sdl_ko.py (check_c10) on the real StatefulDataLoader under the virtual scheduler;
+theorems and correspondence legs come from the SP / MP model parts."""
 from __future__ import annotations
 
-from typing import Tuple
+from . import _compose, sdl_ko
 
-from ..core import Ctx
-from . import sdl_ko
-
-THEOREMS: list = []
-LEAN_MODULES: list = []
-RULE = ""
-EXPLANATION = ""
+RULE = 'map-style and iterator-style datasets with 1-3 failing items / failing collate / failing worker_init_fn, any num_workers, batch size, prefetch factor, schedule policy; consumer catches and continues over 2 epochs; expected observation sequence derived from the documentation. Non-trivial: at least one error with num_workers>0; distinct by (configuration, failing set, policy).'
+EXPLANATION = 'Lean: TDV.SP.error_position_* and TDV.MP.error_position_partial (+ refuted full statement for interval>1 = known finding). Tie: SP K-D / MP K-T with failing tasks. Oracle: catch-and-continue consumer on the real loader.'
 ASSUMPTIONS = ["worker processes are virtual processes under harness/vsched.py (real _worker_loop, deep-copied arguments, pickled queue payloads)"]
-KNOWN = {"error-breaks-snapshot-alignment": sdl_ko.k_c10_interval}
-NQ, NT = 150, 3000
 
-
-def extra_legs(ctx: Ctx):
+PARTS = [_compose.ko_part("ko", sdl_ko.gen_c10, sdl_ko.check_c10, 200, 4000, known={"error-breaks-snapshot-alignment": sdl_ko.k_c10_interval})]
+from . import sp_kd
+PARTS.append(_compose.Part("sp_kd", lambda ctx: sp_kd.run_kd(ctx, 500, 5000), sp_kd.replay_kd, theorems=sp_kd.THEOREMS_C10, modules=sp_kd.LEAN_MODULES))
+try:
+    from . import mp_parts
+    PARTS += mp_parts.parts("C10")
+except ImportError:
     pass
-
-
-def run(ctx: Ctx):
-    import torch
-    torch.set_num_threads(1)
-    jobs = sdl_ko.gen_c10(ctx, ctx.n(NQ, NT))
-    for j in jobs[:2]:
-        ctx.sample(j)
-    ctx.pmap(sdl_ko.check_c10, jobs)
-    extra_legs(ctx)
-
-
-def escalate(ctx: Ctx):
-    run(ctx)
-
-
-def replay(ctx: Ctx, payload) -> Tuple[bool, str]:
-    sub = Ctx(ctx.prop, ctx.tier, ctx.seed)
-    sdl_ko.check_c10(sub, payload["input"])
-    if sub.failures:
-        return False, sub.failures[0].what
-    return True, "property holds on this input"
+_compose.assemble(globals(), PARTS, RULE, EXPLANATION, ASSUMPTIONS)
